@@ -452,7 +452,7 @@ func genEngine(r *hx.Rand, tier string) input {
 func gen(r *hx.Rand, tier string) []json.RawMessage {
 	n := 350
 	if tier == "thorough" {
-		n = 8000
+		n = 4000
 	}
 	var out []json.RawMessage
 	// directed: two ports, one message; head-of-line blocking on a stalled receiver with a refilling sender;
